@@ -20,8 +20,11 @@ i128 ZM_mul(i128 a, i128 b){
   __CPROVER_assert(zabs(a) < ((i128)1 << 50) && zabs(b) < ((i128)1 << 50), "z model range: multiplication operands stay below 2^50 in magnitude");
   i128 r = __CPROVER_uninterpreted_zmul(a, b);
   __CPROVER_assume(z_inrange(r));
+#ifdef ZM_MUL_FULL_AXIOMS
   __CPROVER_assume(r == __CPROVER_uninterpreted_zmul(b, a));
-  __CPROVER_assume((r > 0) == ((a > 0) == (b > 0)) && r != 0 && zabs(r) >= zabs(a) && zabs(r) >= zabs(b));
+  __CPROVER_assume(zabs(r) >= zabs(a) && zabs(r) >= zabs(b));
+#endif
+  __CPROVER_assume((r > 0) == ((a > 0) == (b > 0)) && r != 0);
   return r;
 }
 /* truncating division, b != 0 */
